@@ -2,7 +2,7 @@
 
 use proptest::prelude::*;
 use purl::GenericPurl;
-use serde::de::value::{BorrowedStrDeserializer, Error as ValueError, StrDeserializer, StringDeserializer};
+use serde::de::value::{BorrowedBytesDeserializer, BorrowedStrDeserializer, BytesDeserializer, Error as ValueError, StrDeserializer, StringDeserializer};
 use serde::Deserialize;
 use serde_json::{json, Value};
 
@@ -65,6 +65,30 @@ where
                 Ok(q) => return Err(format!("[{}] JSON round trip of {t:?} changes the PURL: {:?} -> {:?}", I::NAME, observe(p), observe(&q))),
                 Err(e) => return Err(format!("[{}] the serialised form {ser} of an accepted PURL does not deserialise: {e}", I::NAME)),
             }
+            // byte values are not strings either, even when they spell the canonical string
+            if GenericPurl::<I::T>::deserialize(BytesDeserializer::<ValueError>::new(t.as_bytes())).is_ok()
+                || GenericPurl::<I::T>::deserialize(BorrowedBytesDeserializer::<ValueError>::new(t.as_bytes())).is_ok()
+            {
+                return Err(format!("[{}] a byte-string value spelling {t:?} deserialises into a PURL", I::NAME));
+            }
+            // serialising is a pure function of the value: a serialisation that the serializer aborts must
+            // not influence the next one
+            {
+                use serde::Serialize;
+                let limit = t.len() / 2;
+                let aborted = p.serialize(LimitedStringSerializer { limit });
+                if limit < t.len() && aborted.is_ok() {
+                    return Err(format!("[{}] a serializer limited to {limit} bytes accepted {t:?}", I::NAME));
+                }
+                match p.serialize(LimitedStringSerializer { limit: usize::MAX }) {
+                    Ok(s2) if s2 == t => {},
+                    other => return Err(format!("[{}] after an aborted serialisation, {t:?} serialises as {other:?}", I::NAME)),
+                }
+                let again = serde_json::to_string(p).map_err(|e| e.to_string())?;
+                if again != ser {
+                    return Err(format!("[{}] after an aborted serialisation, {t:?} serialises as {again}", I::NAME));
+                }
+            }
             // values that are not strings are refused, even when they contain the string
             for v in [json!(null), json!(true), json!(1), json!(1.5), json!([t]), json!({ "purl": t }), json!({ t.clone(): 1 })] {
                 if serde_json::from_value::<GenericPurl<I::T>>(v.clone()).is_ok() {
@@ -78,6 +102,103 @@ where
         },
     }
     Ok(())
+}
+
+/// A serializer that accepts a string up to `limit` bytes and refuses everything else.
+struct LimitedStringSerializer {
+    limit: usize,
+}
+
+#[derive(Debug)]
+struct SerErr(String);
+
+impl std::fmt::Display for SerErr {
+    fn fmt(&self, f: &mut std::fmt::Formatter<'_>) -> std::fmt::Result {
+        f.write_str(&self.0)
+    }
+}
+
+impl std::error::Error for SerErr {}
+
+impl serde::ser::Error for SerErr {
+    fn custom<T: std::fmt::Display>(msg: T) -> Self {
+        SerErr(msg.to_string())
+    }
+}
+
+macro_rules! refuse {
+    ($($name:ident($($arg:ty),*)),* $(,)?) => {
+        $(fn $name(self $(, _: $arg)*) -> Result<Self::Ok, Self::Error> {
+            Err(SerErr("not a string".into()))
+        })*
+    };
+}
+
+impl serde::Serializer for LimitedStringSerializer {
+    type Error = SerErr;
+    type Ok = String;
+    type SerializeMap = serde::ser::Impossible<String, SerErr>;
+    type SerializeSeq = serde::ser::Impossible<String, SerErr>;
+    type SerializeStruct = serde::ser::Impossible<String, SerErr>;
+    type SerializeStructVariant = serde::ser::Impossible<String, SerErr>;
+    type SerializeTuple = serde::ser::Impossible<String, SerErr>;
+    type SerializeTupleStruct = serde::ser::Impossible<String, SerErr>;
+    type SerializeTupleVariant = serde::ser::Impossible<String, SerErr>;
+
+    refuse!(
+        serialize_bool(bool), serialize_i8(i8), serialize_i16(i16), serialize_i32(i32), serialize_i64(i64), serialize_u8(u8),
+        serialize_u16(u16), serialize_u32(u32), serialize_u64(u64), serialize_f32(f32), serialize_f64(f64), serialize_char(char),
+        serialize_bytes(&[u8]), serialize_none(), serialize_unit(), serialize_unit_struct(&'static str),
+        serialize_unit_variant(&'static str, u32, &'static str),
+    );
+
+    fn serialize_str(self, v: &str) -> Result<String, SerErr> {
+        if v.len() > self.limit {
+            Err(SerErr("too long".into()))
+        } else {
+            Ok(v.to_string())
+        }
+    }
+
+    fn serialize_some<T: ?Sized + serde::Serialize>(self, _: &T) -> Result<String, SerErr> {
+        Err(SerErr("not a string".into()))
+    }
+
+    fn serialize_newtype_struct<T: ?Sized + serde::Serialize>(self, _: &'static str, _: &T) -> Result<String, SerErr> {
+        Err(SerErr("not a string".into()))
+    }
+
+    fn serialize_newtype_variant<T: ?Sized + serde::Serialize>(self, _: &'static str, _: u32, _: &'static str, _: &T) -> Result<String, SerErr> {
+        Err(SerErr("not a string".into()))
+    }
+
+    fn serialize_seq(self, _: Option<usize>) -> Result<Self::SerializeSeq, SerErr> {
+        Err(SerErr("not a string".into()))
+    }
+
+    fn serialize_tuple(self, _: usize) -> Result<Self::SerializeTuple, SerErr> {
+        Err(SerErr("not a string".into()))
+    }
+
+    fn serialize_tuple_struct(self, _: &'static str, _: usize) -> Result<Self::SerializeTupleStruct, SerErr> {
+        Err(SerErr("not a string".into()))
+    }
+
+    fn serialize_tuple_variant(self, _: &'static str, _: u32, _: &'static str, _: usize) -> Result<Self::SerializeTupleVariant, SerErr> {
+        Err(SerErr("not a string".into()))
+    }
+
+    fn serialize_map(self, _: Option<usize>) -> Result<Self::SerializeMap, SerErr> {
+        Err(SerErr("not a string".into()))
+    }
+
+    fn serialize_struct(self, _: &'static str, _: usize) -> Result<Self::SerializeStruct, SerErr> {
+        Err(SerErr("not a string".into()))
+    }
+
+    fn serialize_struct_variant(self, _: &'static str, _: u32, _: &'static str, _: usize) -> Result<Self::SerializeStructVariant, SerErr> {
+        Err(SerErr("not a string".into()))
+    }
 }
 
 pub fn all(s: &str, st: &mut Stats) -> Result<(), String> {
